@@ -347,9 +347,9 @@ def predicates(ctx: Ctx) -> None:
     group_order_predicate(ctx)
     # (b) bit-identical networks whatever the interpreter's hash seed
     jobs = []
-    kinds = [("standard", ctx.seed % 5 + 1), ("atomic", ctx.seed % 3 + 1)]
+    kinds = [("standard", ctx.seed % 5 + 1), ("atomic", ctx.seed % 3 + 1), ("schwefel", ctx.seed % 7 + 1)]
     if ctx.thorough or deep:
-        kinds += [("standard", 11), ("standard", 12), ("atomic", 7)]
+        kinds += [("standard", 11), ("standard", 12), ("atomic", 7), ("schwefel", 11), ("schwefel", 12)]
     hashseeds = ["0", "1", "2", "random"] if not ctx.thorough else ["0", "1", "2", "77", "random", "random"]
     for kind, seed in kinds:
         for hs in hashseeds:
